@@ -698,6 +698,8 @@ class Body:
         if k == "const":
             if "fn" in op:
                 return ("fn", op["fn"], op.get("fnargs"))
+            if "static" in op:
+                return ("static", op["static"])
             if "def" in op and "promoted" not in op:
                 return ("constdef", op["def"], op.get("bits"), op.get("val"))
             if "promoted" in op:
